@@ -648,7 +648,8 @@ def make_graph(fa, target_name, recipe, tx, ty, simplify=True):
 def w_lattice(task):
     fa = setup_repo_import()
     part = new_part()
-    TWINS = set(twin_constant_programs())
+    TWINS = set(twin_constant_programs()) | {("complex", ("x",), ("y",)), ("real", ("complex", ("x",), ("y",))), ("imag", ("complex", ("x",), ("y",))), ("add", ("x",), ("y",)), ("select", ("lt", ("x",), ("y",)), ("x",), ("y",)),
+                                             ("maximum", ("x",), ("y",)), ("atan2", ("x",), ("y",)), ("multiply", ("add", ("x",), ("y",)), ("y",))}
     progs = lattice_programs()[task["lo"]::task["stride"]]
     workdir = tempfile.mkdtemp(prefix="c05_", dir="/var/tmp")
     try:
